@@ -67,6 +67,11 @@ pub fn cmd(sub: &str, args: &[String], w: &mut dyn Write) -> bool {
             probe_state(w);
             true
         }
+        "codec-find-f2" => {
+            let seed: u64 = crate::arg_val(args, "--seed").and_then(|s| s.parse().ok()).unwrap_or(1);
+            find_f2(seed, w);
+            true
+        }
         _ => false,
     }
 }
@@ -246,7 +251,7 @@ fn observe_valid(id: &str, kind: &str, bytes: &[u8], w: &mut dyn Write) {
             let _ = writeln!(w, "rt panic {}", panic_msg(&p));
         }
     }
-    let _ = writeln!(w, "peak {} {}", peak, s.len());
+    let _ = writeln!(w, "peak {} {} {}", peak, s.len(), std::mem::size_of::<State>());
     let _ = writeln!(w, "end");
 }
 
@@ -290,7 +295,7 @@ fn observe_hostile(id: &str, kind: &str, s: &str, w: &mut dyn Write) {
             let _ = writeln!(w, "r panic {}", panic_msg(&p));
         }
     }
-    let _ = writeln!(w, "peak {} {}", peak, s.len());
+    let _ = writeln!(w, "peak {} {} {}", peak, s.len(), std::mem::size_of::<State>());
     let _ = writeln!(w, "end");
 }
 
@@ -1133,6 +1138,56 @@ fn gen_v1_case(p: &mut Prng, id: &str, i: u64, w: &mut dyn Write) {
         }
     };
     observe_v1(id, &format!("v1 {}", tag), &s, w);
+}
+
+/// Smallest prefix of a fixed sequence of noise-filled states whose serialized form no longer
+/// parses (DESIGN section 9, F2): bisection over the number of states.
+fn find_f2(seed: u64, w: &mut dyn Write) {
+    let mut p = Prng::new(seed ^ 0xf2);
+    let total = 1200usize;
+    let states: Vec<State> = (0..total)
+        .map(|_| {
+            let mut s = State::new(enum_map! { _ => vec![] });
+            let nd = |p: &mut Prng| Dist {
+                dist: DistType::Normal { mean: f64::from_bits(p.next()), stdev: pos_f64(p, true) },
+                start: f64::from_bits(p.next()),
+                max: f64::from_bits(p.next()),
+            };
+            s.action = Some(Action::BlockOutgoing { bypass: false, replace: false, timeout: nd(&mut p), duration: nd(&mut p), limit: Some(nd(&mut p)) });
+            s.counter = (Some(Counter::new_dist(Operation::Set, nd(&mut p))), Some(Counter::new_dist(Operation::Set, nd(&mut p))));
+            s
+        })
+        .collect();
+    let mk = |k: usize| Machine {
+        allowed_padding_packets: 0,
+        max_padding_frac: 0.0,
+        allowed_blocked_microsec: 0,
+        max_blocking_frac: 0.0,
+        states: states[..k].to_vec(),
+    };
+    let fails = |k: usize| {
+        let m = mk(k);
+        m.validate().is_ok() && Machine::from_str(&m.serialize()).is_err()
+    };
+    if !fails(total) {
+        let _ = writeln!(w, "# no failing prefix up to {} states", total);
+        return;
+    }
+    let (mut lo, mut hi) = (1usize, total); // fails(hi), assume !fails(lo)
+    if fails(lo) {
+        hi = lo;
+    }
+    while hi - lo > 1 {
+        let mid = (lo + hi) / 2;
+        if fails(mid) {
+            hi = mid;
+        } else {
+            lo = mid;
+        }
+    }
+    let _ = writeln!(w, "# smallest failing prefix: {} states (the prefix with {} states parses)", hi, lo);
+    observe_valid(&format!("f2-min-{}", hi), "valid f2-min", &bincode_of(&mk(hi)), w);
+    observe_valid(&format!("f2-below-{}", lo), "valid f2-below", &bincode_of(&mk(lo)), w);
 }
 
 /// `parse_state` is public and takes `num_states` as an argument: with overflow checks on, a
